@@ -98,7 +98,7 @@ def decimal_arg(val: Any, default: int | Decimal | None = None) -> int | Decimal
 
         try:
             return Decimal(val)
-        except ValueError as err:
+        except (ValueError, ArithmeticError) as err:
             if default is not None:
                 return default
             raise LiquidTypeError(
